@@ -104,7 +104,7 @@ def plan(tier, seed):
     K = U.kernel()
     U2 = U.U2c_indices() if tier == "quick" else list(range(256))
     d = 1 if tier == "quick" else 2
-    nets = [("k", k) for k, n in K.items() if n.n <= (4 if tier == "quick" else 5) and len(n.sd[0]) <= (5 if tier == "quick" else 9)]
+    nets = [("k", k) for k, n in K.items() if n.n <= (4 if tier == "quick" else 5) and len(n.sd[0]) <= (7 if tier == "quick" else 9)]
     nets += [("idx", 2, i) for i in U2 if c04.sd_size(("idx", 2, i)) >= (3 if tier == "quick" else 1)]
     f3 = [("idx", 3, i) for i in U.shard(U.F3_indices(True), seed, 128 if tier == "quick" else 16)] + \
          [("idx", 3, i) for i in U.shard(U.catalogue("multi"), seed, 16 if tier == "quick" else 2)] + \
